@@ -301,12 +301,56 @@ def jwk_oracle(op, line, opl, rp, violation, outcomes, feats, distinct, digests)
         violation("not-a-function-of-the-identifier", f"two resolutions of {shown!r} gave different documents", rp)
 
 
+def chain_oracle(op, line, opl, rp, violation, outcomes, feats, distinct):
+    """ChainedDIDResolver / DIDResolverRouter with scripted members (deepening round 3): the first member that answers
+    anything but NotFound decides and nothing after it is asked; the router hands a DID only to the resolver registered
+    (last) under exactly its method"""
+    kind = op["op"]
+    if kind == "chain":
+        m = re.fullmatch(r"chain (\S+) asked=(\S+) isdeact=(\S+)", line)
+        if not m:
+            return
+        outs = op.get("outs") or []
+        distinct.add(("chain", tuple(outs)))
+        k = next((i for i, o in enumerate(outs) if o not in ("nf", "nfw")), None)
+        feats[f"chain-len={len(outs)}"] += 1
+        feats[f"chain-answer-at={k}"] += 1
+        outcomes["chain " + m.group(1).split(":")[0] + (":" + m.group(1).split(":")[1] if m.group(1).startswith("fail") else "")] += 1
+        want_asked = str(len(outs) if k is None else k + 1)
+        want = "nf" if k is None else ("ok:%d" % k if outs[k] == "ok" else "fail:" + {"deactw": "deact"}.get(outs[k], outs[k]))
+        if m.group(2) != want_asked:
+            violation("chain-member-asked-after-the-answer" if k is not None and (not m.group(2).isdigit() or int(m.group(2)) > k + 1) else "chain-member-skipped",
+                      f"chain of members answering {outs}: {m.group(2)} member(s) asked, the first answer is at position {k}", rp)
+        if m.group(1) != want:
+            sig = "chain-result-is-not-the-first-answer"
+            if k is not None and outs[k] in ("deact", "deactw", "noctl") and m.group(1).startswith("ok"):
+                sig = "deactivated-resolved"
+            violation(sig, f"chain of members answering {outs} returned {m.group(1)}, the first answer is {want}", rp)
+        if (m.group(3) == "true") != (want in ("fail:deact", "fail:noctl")) and m.group(1) == want:
+            violation("deactivated-error-class", f"errors.Is(err, ErrDeactivated) = {m.group(3)} for result {want}", rp)
+        return
+    m = re.fullmatch(r"router (\S+)(?: asked=\[(.*)\])?", line)
+    if not m:
+        return
+    regs = op.get("regs") or []
+    distinct.add(("router", op.get("m", ""), json.dumps(regs)))
+    same = [i for i, g in enumerate(regs) if g["m"] == op.get("m", "")]
+    outcomes["router " + m.group(1).split(":")[0]] += 1
+    feats[f"router-registrations-of-method={min(len(same), 3)}"] += 1
+    asked = [int(x) for x in (m.group(2) or "").split(",") if x]
+    meth = bytes.fromhex(op.get("m", ""))
+    if any(regs[i]["m"] != op.get("m", "") for i in asked if i < len(regs)):
+        violation("router-resolver-of-other-method", f"DID of method {meth!r} was handed to the resolver registered for {[bytes.fromhex(regs[i]['m']) for i in asked]}", rp)
+    elif (asked != same[-1:]):
+        violation("router-registration-not-honoured", f"method {meth!r}: registrations {same} (last wins), resolvers asked {asked}", rp)
+
+
 def run(ctx):
     ctx.facts()
     thms = ctx.build_and_audit(["NutsProofs.Props.C18"])
     required = ["did_url_roundtrip", "fetch_origin_bound", "redirects_stay_on_origin", "strict_client_https_only",
                 "redirect_witness", "id_bound_web", "id_bound", "jwk_key_pure", "local_first_no_network",
-                "deactivated_needs_flag", "local_store_fault_no_network", "fact_local_resolver_errors", "fact_local_time_bound", "fact_cache_index", "fact_cache_flow", "rcache_invariant", "rcache_hit_sound", "rcache_hit_same_url", "rcache_round_trip_adds_only_this_cacheable_get", "fact_did_key_table", "did_key_accept_sound", "multicodec_prefix_roundtrip", "rcache_hit_not_expired", "old_cache_defect_witness", "fact_local_lookup_query", "local_lookup_exact", "local_lookup_ignores_other_dids", "local_sql_refines", "local_resolution_independent_of_other_dids", "x509_reference_is_the_identifier", "x509_split_join", "x509_policies_all_enforced", "x509_validation_cert_named_by_every_thumbprint", "x509_accept_sound", "x509_nil_metadata_panics", "fact_x509_tables", "fact_did_jwk_flow", "did_jwk_accept_sound", "b64_decode_encode", "did_jwk_of_encoded_text", "cache_key_injective", "cache_no_foreign_entry", "fact_sets", "fact_content_types", "fact_redirect_policy", "fact_router",
+                "deactivated_needs_flag", "local_store_fault_no_network", "fact_local_resolver_errors", "fact_local_time_bound", "fact_cache_index", "fact_cache_flow", "rcache_invariant", "rcache_hit_sound", "rcache_hit_same_url", "rcache_round_trip_adds_only_this_cacheable_get", "fact_did_key_table", "did_key_accept_sound", "multicodec_prefix_roundtrip", "rcache_hit_not_expired", "old_cache_defect_witness", "fact_local_lookup_query", "local_lookup_exact", "local_lookup_ignores_other_dids", "local_sql_refines", "local_resolution_independent_of_other_dids", "x509_reference_is_the_identifier", "x509_split_join", "x509_policies_all_enforced", "x509_validation_cert_named_by_every_thumbprint", "x509_accept_sound", "x509_nil_metadata_panics", "fact_x509_tables", "fact_did_jwk_flow", "fact_chain_router_flow", "chain_first_answer_wins", "chain_stops_at_first_answer", "router_exact_method", "router_last_registration_wins", "resolve_web_is_chain", "did_jwk_accept_sound", "b64_decode_encode", "did_jwk_of_encoded_text", "cache_key_injective", "cache_no_foreign_entry", "fact_sets", "fact_content_types", "fact_redirect_policy", "fact_router",
                 "fact_deactivation", "fact_resolve_checks_document_id", "fact_strict_do"]
     for r in required:
         if not any(t.endswith("Props." + r) for t in thms):
@@ -467,6 +511,8 @@ def run(ctx):
                         violation("document-id-differs", f"returned document id {bytes.fromhex(o[3:])!r} for did:web:{idb!r}", opl)
         elif kind == "hc":
             hc_oracle(op, line, opl, violation, outcomes, feats, distinct)
+        elif kind in ("chain", "router"):
+            chain_oracle(op, line, opl, (node_line or '{"op":"node"}') + "\n" + opl, violation, outcomes, feats, distinct)
         elif kind == "jwk":
             jwk_oracle(op, line, opl, (node_line or '{"op":"node"}') + "\n" + opl, violation, outcomes, feats, distinct, digests)
         elif kind == "resolve":
